@@ -131,6 +131,7 @@ type SpecFile struct {
 	Ghosts    []*GhostField
 	Valids    []*ValidSpec
 	Opaques   []string
+	Guarded   []GuardSpec
 	NoEffect  []string
 	Delegates map[string]string
 	Globals   []*GlobalInv
@@ -569,7 +570,7 @@ func (p *parser) primary() (*Expr, error) {
 // file structure
 
 var clauseKeywords = map[string]bool{
-	"contract": true, "let": true, "callsite": true, "assert": true, "unfold": true, "assume": true, "requires": true, "ensures": true, "modifies": true,
+	"contract": true, "guarded": true, "let": true, "callsite": true, "assert": true, "unfold": true, "assume": true, "requires": true, "ensures": true, "modifies": true,
 	"invariant": true, "decreases": true, "loop": true, "spec": true, "axiom": true, "ghost": true,
 	"valid": true, "inline": true, "pure": true, "wraps": true, "maypanic": true, "theory": true,
 	"package": true, "import": true, "opaque": true, "split": true, "noeffect": true, "trusted": true,
@@ -653,6 +654,13 @@ func ParseSpecFile(path, defaultPkg string) (*SpecFile, error) {
 			sf.Delegates[qualifyType(strings.TrimSpace(rest[1:j]), sf)] = strings.TrimSpace(rest[j+1:])
 		case "opaque":
 			sf.Opaques = append(sf.Opaques, strings.Fields(rest)...)
+		case "guarded":
+			// guarded (Type) field by lock
+			fs := strings.Fields(rest)
+			if len(fs) != 4 || fs[2] != "by" || !strings.HasPrefix(fs[0], "(") {
+				return nil, fail(fmt.Errorf("guarded (Type) field by lockfield"))
+			}
+			sf.Guarded = append(sf.Guarded, GuardSpec{Type: qualifyType(strings.Trim(fs[0], "()"), sf), Field: fs[1], Lock: fs[3]})
 		case "noeffect":
 			sf.NoEffect = append(sf.NoEffect, strings.Fields(rest)...)
 		case "contract", "assume", "interface":
@@ -1148,6 +1156,12 @@ func parseSpecFunc(rest string) (*SpecFunc, error) {
 // description (callee key, interface method, or `value:<local>` for a call through a local
 // function value) contains Pattern.  A function with no matching call fails the `site-exists`
 // obligation, so dropping the call is noticed as well.
+// GuardSpec: `guarded (Type) field by lockfield` - every load or store of Type.field made by a
+// function under verification must happen while Type.lockfield (a sync.Mutex) is held.
+type GuardSpec struct {
+	Type, Field, Lock string
+}
+
 type CallSiteSpec struct {
 	Pattern string
 	Asserts []*Clause
